@@ -1497,8 +1497,11 @@ impl<'a, 'b, W: Write> Serializer for &'a mut YamlSerializer<'b, W> {
         } else if name == NAME_TUPLE_COMMENTED {
             Ok(TupleSer::commented(self))
         } else {
-            // Treat as normal block sequence
-            Ok(TupleSer::normal(self))
+            // An ordinary tuple struct is laid out exactly like a sequence / tuple.
+            let SeqSer {
+                ser, depth, flow, ..
+            } = self.serialize_seq(Some(_len))?;
+            Ok(TupleSer::normal(ser, depth, flow))
         }
     }
 
@@ -1826,20 +1829,19 @@ pub struct TupleSer<'a, 'b, W: Write> {
     comment_text: Option<String>,
 }
 enum TupleKind {
-    Normal,       // treat as block seq
+    Normal { flow: bool }, // laid out by the sequence serializer
     AnchorStrong, // [ptr, value]
     AnchorWeak,   // [ptr, present, value]
     Commented,    // [comment, value]
 }
 impl<'a, 'b, W: Write> TupleSer<'a, 'b, W> {
     /// Create a tuple serializer for normal tuple-structs.
-    fn normal(ser: &'a mut YamlSerializer<'b, W>) -> Self {
-        let depth_next = ser.depth + 1;
+    fn normal(ser: &'a mut YamlSerializer<'b, W>, depth: usize, flow: bool) -> Self {
         Self {
             ser,
-            kind: TupleKind::Normal,
+            kind: TupleKind::Normal { flow },
             idx: 0,
-            depth_for_normal: depth_next,
+            depth_for_normal: depth,
             strong_alias_id: None,
             weak_present: false,
             skip_third: false,
@@ -1897,17 +1899,14 @@ impl<'a, 'b, W: Write> SerializeTupleStruct for TupleSer<'a, 'b, W> {
 
     fn serialize_field<T: ?Sized + Serialize>(&mut self, value: &T) -> Result<()> {
         match self.kind {
-            TupleKind::Normal => {
-                if self.idx == 0 {
-                    self.ser.write_anchor_for_complex_node()?;
-                    if !self.ser.at_line_start {
-                        self.ser.newline()?;
-                    }
-                }
-                self.ser.write_indent(self.ser.depth + 1)?;
-                self.ser.out.write_str("- ")?;
-                self.ser.at_line_start = false;
-                value.serialize(&mut *self.ser)?;
+            TupleKind::Normal { flow } => {
+                let mut seq = SeqSer {
+                    ser: &mut *self.ser,
+                    depth: self.depth_for_normal,
+                    flow,
+                    first: self.idx == 0,
+                };
+                SerializeSeq::serialize_element(&mut seq, value)?;
             }
             TupleKind::AnchorStrong => {
                 match self.idx {
@@ -2017,6 +2016,14 @@ impl<'a, 'b, W: Write> SerializeTupleStruct for TupleSer<'a, 'b, W> {
     }
 
     fn end(self) -> Result<()> {
+        if let TupleKind::Normal { flow } = self.kind {
+            return SerializeSeq::end(SeqSer {
+                ser: self.ser,
+                depth: self.depth_for_normal,
+                flow,
+                first: self.idx == 0,
+            });
+        }
         Ok(())
     }
 }
